@@ -5,6 +5,7 @@ Correspondence: the extracted Coq model (coq/model/Metrics.v, command c01_run) a
 Direct oracle: `Ref` below, a plain-Python interpreter of the property text (dict of label tuple -> state); it is
 NOT the Coq model and shares no code with it or with the library.
 """
+import enum
 import itertools
 import math
 import struct
@@ -15,15 +16,23 @@ RULE = ('operation histories over 1-4 metric families (six types) x 0-3 label na
         'classes ordinary / >2^53 / tiny / negative / +-Inf / NaN / -0.0 / Python ints (incl. >2^53, around 2^1024, '
         'unconvertible >1e308) / bools x bucket layouts (default, negative first bound, duplicates, bound equal to an '
         'observation, int bounds); addresses parent | positional | keyword (permuted, wrong names, wrong count) | both; label '
-        'values as Python objects stringified by str(); remove/clear; exhaustive to depth 3 over a 12-op alphabet on one '
-        'labelled family of each type, random histories of length 5-60 beyond; collect() and the exception class are '
+        'values passed to labels(*args), labels(**kwargs) and remove() as Python objects: str, int, float, bool, None, bytes, '
+        'list/tuple, instances of str/int/float subclasses with their own __str__, str subclasses without one, members of '
+        'str-/int-mix-in and plain enums with default and own __str__, objects whose str() collides with another value\'s '
+        '(drawn from groups in which several values share str() and others share only the payload/hash); the reference model '
+        'is keyed by str(value); remove/clear; exhaustive to depth 3 over a 12-op alphabet on one '
+        'labelled family of each type and over {positional update, keyword update, remove} x 3 values + clear for six '
+        'triples (non-str value, the string it shows as, the string it holds); pair histories over every group x six types '
+        'x 1-2 labels; random histories of length 5-60 beyond; collect() and the exception class are '
         'compared after every step; non-trivial = at least 3 accepted updates and one rejected call or remove/clear; '
         'distinct by the whole history')
 TRUSTED = ['Section hypotheses of props/C01.v (FL3): fle_trans (float <= is transitive) and zlef_trans (Python int <= float, an '
            'exact comparison, composes with float <=); used only by C01_refines, C01_bucket_is_count_le, C01_bucket_monotone',
            'FL4: integer-valued doubles below 2^53 add exactly, so _count and bucket cells (only ever += 1) are modelled as N; '
            'the harness fails loudly if a count is not integral',
-           'str() of label values and float() of bucket bounds happen in CPython, outside the model (the model receives the results)',
+           'str() of label values and float() of bucket bounds happen in CPython, outside the model (the model receives the results); '
+           'for values whose class defines __str__ the harness passes the text declared in the case and checks at start-up that '
+           'CPython str() returns it',
            'floatToGoString(bound) in the le label is outside the model: le is compared numerically via float(le)',
            'OCaml float + < <= = and the int->double rounding in ocaml/cmds_c01.ml (compared with CPython on every case)']
 ASSUMPTIONS = ['label names of a family and the states of an Enum are pairwise distinct (duplicates would expose identical series)',
@@ -48,7 +57,13 @@ def unhex(h):
 # ----------------------------------------------------------------------------------------------------------------
 # case encoding (JSON-serialisable)
 #   amount : ['f', hex] | ['i', int] | ['b', bool]
-#   labelv : ['s', str] | ['i', int] | ['f', hex] | ['b', bool] | ['n']
+#   labelv : ['s', str] | ['i', int] | ['f', hex] | ['b', bool] | ['n'] | ['y', hex bytes]
+#          | ['t', payload, shown]   instance of a str subclass whose payload is `payload` and whose __str__ gives `shown`
+#          | ['T', payload]          instance of a str subclass that does not override __str__
+#          | ['e', class, member]    member of one of the enum classes LV_ENUMS (str / int mix-ins, own or default __str__)
+#          | ['o', shown]            plain object whose __str__ gives `shown` (its __repr__ and __format__ give other texts)
+#          | ['I', int, shown] | ['F', hex, shown]   int / float subclass instance whose __str__ gives `shown`
+#          | ['l', [labelv..]] | ['u', [labelv..]]   list / tuple of simple values (unhashable / hashable containers)
 #   addr   : 'P' | ['pos', [labelv..]] | ['kw', [[name, labelv]..]] | ['both', [labelv..], [[name, labelv]..]]
 #   mop    : ['inc'] | ['inc', amount] | ['dec'] | ['dec', amount] | ['set', amount] | ['obs', amount] | ['reset']
 #          | ['info', [[k, v-or-None]..]] | ['state', s]
@@ -64,16 +79,145 @@ def dec_amount(a):
     return int(a[1])
 
 
+class ShownStr(str):
+    """a str subclass with its own __str__: str(v) != the characters v holds"""
+    def __new__(cls, payload, shown):
+        self = str.__new__(cls, payload)
+        self.shown = shown
+        return self
+
+    def __str__(self):
+        return self.shown
+
+
+class PlainSubStr(str):
+    """a str subclass that inherits str.__str__"""
+
+
+class ShownObj:
+    def __init__(self, shown):
+        self.shown = shown
+
+    def __str__(self):
+        return self.shown
+
+    def __repr__(self):
+        return 'repr:' + self.shown
+
+    def __format__(self, spec):
+        return 'format:' + self.shown
+
+
+class ShownInt(int):
+    def __new__(cls, n, shown):
+        self = int.__new__(cls, n)
+        self.shown = shown
+        return self
+
+    def __str__(self):
+        return self.shown
+
+
+class ShownFloat(float):
+    def __new__(cls, x, shown):
+        self = float.__new__(cls, x)
+        self.shown = shown
+        return self
+
+    def __str__(self):
+        return self.shown
+
+
+class Color(str, enum.Enum):          # the 'str mix-in' idiom, default __str__ ('Color.RED')
+    RED = 'red'
+    A = 'a'
+    ONE = '1'
+
+
+class Tag(str, enum.Enum):            # str mix-in with its own __str__
+    X = 'x'
+    A = 'a'
+
+    def __str__(self):
+        return 'tag:' + self.value
+
+
+class Level(enum.Enum):               # plain enum, default __str__ ('Level.LOW')
+    LOW = 1
+    A = 'a'
+
+
+class Shown(enum.Enum):               # plain enum with its own __str__
+    ONE = 1
+    A = 'a'
+    NONE = None
+
+    def __str__(self):
+        return str(self.value)
+
+
+class Num(enum.IntEnum):              # int mix-in (str() is version dependent: taken from CPython)
+    ZERO = 0
+    ONE = 1
+
+
+LV_ENUMS = dict(Color=Color, Tag=Tag, Level=Level, Shown=Shown, Num=Num)
+if hasattr(enum, 'StrEnum'):
+    class Word(enum.StrEnum):         # str() is the value
+        A = 'a'
+        RED = 'red'
+    LV_ENUMS['Word'] = Word
+
+
 def dec_lv(v):
-    if v[0] == 's':
+    k = v[0]
+    if k == 's':
         return v[1]
-    if v[0] == 'i':
+    if k == 'i':
         return int(v[1])
-    if v[0] == 'f':
+    if k == 'f':
         return unhex(v[1])
-    if v[0] == 'b':
+    if k == 'b':
         return bool(v[1])
-    return None
+    if k == 'y':
+        return bytes.fromhex(v[1])
+    if k == 't':
+        return ShownStr(v[1], v[2])
+    if k == 'T':
+        return PlainSubStr(v[1])
+    if k == 'e':
+        return LV_ENUMS[v[1]][v[2]]
+    if k == 'o':
+        return ShownObj(v[1])
+    if k == 'I':
+        return ShownInt(int(v[1]), v[2])
+    if k == 'F':
+        return ShownFloat(unhex(v[1]), v[2])
+    if k == 'l':
+        return [dec_lv(x) for x in v[1]]
+    if k == 'u':
+        return tuple(dec_lv(x) for x in v[1])
+    if k == 'n':
+        return None
+    raise AssertionError(v)
+
+
+def lv_text(v):
+    """The string the property identifies the label value with: str(value).  Where the value's class defines __str__ itself
+    the text is the one DECLARED in the case (no call into the object); for built-in values and default enum members it is
+    CPython's str() (outside the model)."""
+    k = v[0]
+    if k in ('s', 'T'):
+        return v[1]
+    if k in ('t', 'I', 'F'):
+        return v[2]
+    if k == 'o':
+        return v[1]
+    if k == 'e' and v[1] == 'Tag':
+        return 'tag:' + LV_ENUMS['Tag'][v[2]].value
+    r = str(dec_lv(v))
+    assert type(r) is str
+    return r
 
 
 def full_name(fd):
@@ -98,6 +242,12 @@ def canon_value(v):
     return v
 
 
+def plain(v):
+    """an exposed label value as the exposition writes it: the characters of a str (also of a str subclass instance,
+    whatever its __str__/__eq__ say); anything else is left alone and reported by the direct oracle"""
+    return str.__str__(v) if isinstance(v, str) and type(v) is not str else v
+
+
 def observe(reg):
     """registry.collect() without _created samples and exemplars: [name, sorted labels without le, le as float, value]."""
     out = []
@@ -105,7 +255,7 @@ def observe(reg):
         for s in metric.samples:
             if metric.type in ('counter', 'summary', 'histogram') and s.name == metric.name + '_created':
                 continue
-            labels = dict(s.labels)
+            labels = {k: plain(v) for k, v in s.labels.items()}
             le = None
             if metric.type == 'histogram' and s.name == metric.name + '_bucket':
                 le = float(labels.pop('le'))
@@ -197,7 +347,7 @@ def sx_amount(a):
 
 
 def sx_lv(v):
-    return str(dec_lv(v))              # CPython's str(): outside the model
+    return lv_text(v)                  # str(value): CPython's str() / the declared __str__ text, outside the model
 
 
 def sx_addr(addr):
@@ -370,12 +520,12 @@ class Ref:
         if not names:
             raise Reject()
         if addr[0] == 'pos':
-            vals = [str(dec_lv(v)) for v in addr[1]]
+            vals = [lv_text(v) for v in addr[1]]
             if len(vals) != len(names):
                 raise Reject()
             return tuple(vals)
         if addr[0] == 'kw':
-            given = {k: str(dec_lv(v)) for k, v in addr[1]}
+            given = {k: lv_text(v) for k, v in addr[1]}
             if not given:
                 if len(names) != 0:
                     raise Reject()
@@ -445,7 +595,7 @@ class Ref:
                 if op[2] != 'P':
                     self.child(fam, self.address(fam, op[2]))
             elif op[0] == 'remove':
-                vals = tuple(str(dec_lv(v)) for v in op[2])
+                vals = tuple(lv_text(v) for v in op[2])
                 if not fam['names'] or len(vals) != len(fam['names']):
                     raise Reject()
                 fam['children'].pop(vals, None)
@@ -607,6 +757,58 @@ def gen_amount(rng, kind=None):
 LV_POOL = [['s', 'a'], ['s', 'b'], ['i', 1], ['s', '1'], ['f', fhex(1.0)], ['s', '1.0'], ['b', True], ['s', 'True'], ['n'],
            ['s', 'None'], ['s', ''], ['s', 'é"\\\n'], ['i', 2 ** 70], ['f', fhex(-0.0)], ['s', '-0.0'], ['b', False],
            ['i', 0], ['s', '0'], ['f', fhex(NAN)], ['s', 'nan'], ['s', ' a'], ['s', 'A']]
+# Groups of label values (any Python objects) chosen so that, inside a group, several values are IDENTIFIED by str() while
+# others differ from them only before str() (same payload / same hash / same repr, different str()).
+LV_GROUPS = [
+    # str subclass with its own __str__ against the text it shows and the text it holds
+    [['t', 'x', 'tag:x'], ['s', 'tag:x'], ['s', 'x'], ['e', 'Tag', 'X'], ['o', 'tag:x'], ['T', 'x'], ['o', 'x'], ['T', 'tag:x']],
+    # str mix-in enum members: default __str__ (class.member), own __str__, StrEnum
+    [['e', 'Color', 'RED'], ['s', 'Color.RED'], ['s', 'red'], ['t', 'red', 'Color.RED'], ['t', 'Color.RED', 'red'],
+     ['o', 'Color.RED']] + ([['e', 'Word', 'RED']] if 'Word' in LV_ENUMS else []),
+    [['e', 'Color', 'A'], ['e', 'Tag', 'A'], ['e', 'Level', 'A'], ['e', 'Shown', 'A'], ['s', 'a'], ['s', 'tag:a'],
+     ['s', 'Color.A'], ['s', 'Level.A'], ['T', 'a'], ['t', 'a', 'b'], ['s', 'b']] + ([['e', 'Word', 'A']] if 'Word' in LV_ENUMS else []),
+    # everything that shows as '1' / '1.0' / 'True'
+    [['i', 1], ['s', '1'], ['b', True], ['s', 'True'], ['f', fhex(1.0)], ['s', '1.0'], ['e', 'Num', 'ONE'], ['e', 'Shown', 'ONE'],
+     ['e', 'Color', 'ONE'], ['e', 'Level', 'LOW'], ['s', 'Level.LOW'], ['I', 1, 'one'], ['I', 2, '1'], ['F', fhex(1.0), '1'],
+     ['t', '1', '1.0'], ['o', '1'], ['s', 'one'], ['s', 'Num.ONE'], ['s', 'Color.ONE']],
+    # None / 0 / False / -0.0 / the empty string
+    [['n'], ['s', 'None'], ['e', 'Shown', 'NONE'], ['o', 'None'], ['i', 0], ['s', '0'], ['b', False], ['s', 'False'],
+     ['e', 'Num', 'ZERO'], ['f', fhex(-0.0)], ['s', '-0.0'], ['f', fhex(0.0)], ['s', '0.0'], ['s', ''], ['t', '', 'None'],
+     ['t', 'None', ''], ['o', ''], ['I', 0, '']],
+    # bytes, containers and their displays
+    [['y', b'a'.hex()], ['s', "b'a'"], ['s', 'a'], ['y', b''.hex()], ['s', "b''"], ['y', 'e9'], ['s', "b'\\xe9'"], ['s', 'é'],
+     ['l', [['i', 1]]], ['s', '[1]'], ['u', [['i', 1]]], ['s', '(1,)'], ['l', []], ['s', '[]'], ['u', [['s', 'a']]], ['s', "('a',)"],
+     ['o', "b'a'"], ['t', 'a', "b'a'"]],
+    # floats and ints with many displays
+    [['f', fhex(NAN)], ['s', 'nan'], ['F', fhex(NAN), 'NaN'], ['s', 'NaN'], ['f', fhex(INF)], ['s', 'inf'], ['i', 2 ** 70],
+     ['s', str(2 ** 70)], ['f', fhex(2.0 ** 70)], ['s', '1.1805916207174113e+21'], ['f', fhex(0.1)], ['s', '0.1'],
+     ['F', fhex(0.1), '0.10'], ['s', '0.10'], ['I', 2 ** 70, '2**70']],
+    # characters that need escaping in an exposition, and white space
+    [['t', 'é"\\\n', 'q'], ['s', 'é"\\\n'], ['s', 'q'], ['o', 'é"\\\n'], ['s', ' a'], ['t', 'a', ' a'], ['s', 'a'], ['s', 'A'],
+     ['t', 'A', 'a'], ['o', 'a ']],
+]
+LV_ALL = []
+for _g in [LV_POOL] + LV_GROUPS:
+    for _v in _g:
+        if _v not in LV_ALL:
+            LV_ALL.append(_v)
+
+
+def lv_kind(v):
+    return {'s': 'str', 'i': 'int', 'f': 'float', 'b': 'bool', 'n': 'None', 'y': 'bytes', 't': 'str-subclass-own-str',
+            'T': 'str-subclass', 'e': 'enum', 'o': 'object', 'I': 'int-subclass', 'F': 'float-subclass', 'l': 'list',
+            'u': 'tuple'}[v[0]] + (':' + v[1] if v[0] == 'e' else '')
+
+
+def lv_selfcheck():
+    """the declared texts are what CPython's str() gives (the reference model is keyed by str(value))"""
+    for v in LV_ALL:
+        o = dec_lv(v)
+        assert type(lv_text(v)) is str and str(o) == lv_text(v) and '%s' % (o,) == lv_text(v), v
+        if v[0] == 't':
+            assert str.__str__(o) == v[1] and o == v[1] and hash(o) == hash(v[1]) and isinstance(o, str), v
+
+
 LEGACY_LABELS = ['l', 'method', 'a_b', 'x1', 'code', 'Path']
 UTF8_LABELS = ['é', 'my.label', 'sp ace', '日本', 'a-b', '1st']
 LEGACY_NAMES = ['req', 'a:b', 'm', 'http_requests', 'X']
@@ -697,7 +899,7 @@ def gen_mop(rng, fd):
 
 
 def gen_values(rng, fd, small):
-    pool = small if rng.random() < 0.8 else LV_POOL
+    pool = small if rng.random() < 0.8 else LV_ALL
     return [rng.choice(pool) for _ in fd['labels']]
 
 
@@ -710,8 +912,8 @@ def gen_addr(rng, fd, small):
         if r < 0.94:
             return ['pos', []]
         if r < 0.97:
-            return ['pos', [rng.choice(LV_POOL)]]
-        return ['kw', [['l', rng.choice(LV_POOL)]]]
+            return ['pos', [rng.choice(LV_ALL)]]
+        return ['kw', [['l', rng.choice(LV_ALL)]]]
     r = rng.random()
     vals = gen_values(rng, fd, small)
     if r < 0.07:
@@ -723,7 +925,7 @@ def gen_addr(rng, fd, small):
         rng.shuffle(pairs)
         return ['kw', pairs]
     if r < 0.84:                    # wrong count
-        return ['pos', vals + [rng.choice(LV_POOL)] if rng.random() < 0.5 else vals[:-1]]
+        return ['pos', vals + [rng.choice(LV_ALL)] if rng.random() < 0.5 else vals[:-1]]
     if r < 0.88:                    # wrong name
         pairs = [[n, v] for n, v in zip(names, vals)]
         pairs[rng.randrange(len(pairs))][0] = rng.choice(['nope', 'L', names[0] + '_', ''])
@@ -733,7 +935,7 @@ def gen_addr(rng, fd, small):
         del pairs[rng.randrange(len(pairs))]
         return ['kw', pairs]
     if r < 0.94:                    # one extra
-        pairs = [[n, v] for n, v in zip(names, vals)] + [['extra', rng.choice(LV_POOL)]]
+        pairs = [[n, v] for n, v in zip(names, vals)] + [['extra', rng.choice(LV_ALL)]]
         rng.shuffle(pairs)
         return ['kw', pairs]
     if r < 0.97:
@@ -741,14 +943,130 @@ def gen_addr(rng, fd, small):
     return ['pos', []]
 
 
+def small_pool(rng, group, k):
+    """k values of the group, preferring values that share their str() with another chosen one"""
+    first = rng.choice(group)
+    mates = [v for v in group if v != first and lv_text(v) == lv_text(first)]
+    out = [first] + ([rng.choice(mates)] if mates else [])
+    rest = [v for v in group if v not in out]
+    rng.shuffle(rest)
+    return (out + rest)[:max(k, 2)]
+
+
+def addressing_family(kind, labels):
+    fd = dict(kind=kind, name='z', labels=list(labels), buckets=None, states=[])
+    if kind == 'histogram':
+        fd['buckets'] = [enc_amount(1.0), enc_amount(4.0)]
+    if kind == 'enum':
+        fd['states'] = ['a', 'b', 'c']
+    return fd
+
+
+def touch(kind, i):
+    """an accepted update whose effect identifies the step that made it (amount 2^i, state i mod 3)"""
+    if kind in ('counter', 'gauge'):
+        return ['inc', ['i', 2 ** i]]
+    if kind in ('summary', 'histogram'):
+        return ['obs', ['i', 2 ** i]]
+    if kind == 'info':
+        return ['info', [['step', str(i)]]]
+    return ['state', 'abc'[i % 3]]
+
+
+def addr_of(form, names, vals, rng=None):
+    if form == 'pos':
+        return ['pos', list(vals)]
+    pairs = [[n, v] for n, v in zip(names, vals)]
+    if form == 'kwrev':
+        pairs.reverse()
+    return ['kw', pairs]
+
+
+def pair_rank(p):
+    """0: different values that stringify equally; 1: values that are == / hash-equal as Python objects (same payload) but
+    stringify differently; 2: the rest"""
+    v, w = p
+    if v != w and lv_text(v) == lv_text(w):
+        return 0
+    try:
+        a, b = dec_lv(v), dec_lv(w)
+        if lv_text(v) != lv_text(w) and (a == b or hash(a) == hash(b)):
+            return 1
+    except TypeError:
+        pass
+    return 2
+
+
+def pair_histories(rng, per_group):
+    """Two values v, w of one group, addressed through every combination of positional / keyword labels() and remove():
+    update via v, update via w, remove(v), update via w, remove(w), update via v, labels(w), update via v.  Every step is
+    observed, so: v and w share a child iff they stringify equally; remove(v) deletes the child labels(v) made and no other;
+    a re-addressed child restarts from zero."""
+    kinds = ['counter', 'gauge', 'summary', 'histogram', 'info', 'enum']
+    for g in LV_GROUPS:
+        pairs = [(v, w) for v in g for w in g]
+        rng.shuffle(pairs)
+        # all pairs that collide after str() or share a payload first, the others as far as the budget goes
+        pairs.sort(key=pair_rank)
+        for n, (v, w) in enumerate(pairs[:per_group]):
+            kind = kinds[n % 6] if n % 3 else rng.choice(['counter', 'gauge'])
+            two = rng.random() < 0.4
+            names = ['a', 'b'] if two else ['l']
+            other = rng.choice(g)
+            fa, fb = rng.choice(['pos', 'kw', 'kwrev']), rng.choice(['pos', 'kw', 'kwrev'])
+            V = [v, other] if two else [v]
+            W = [w, other] if two else [w]
+            if two and rng.random() < 0.5:
+                V, W = V[::-1], W[::-1]
+            fd = addressing_family(kind, names)
+            ops = [['upd', 0, addr_of(fa, names, V), touch(kind, 0)],
+                   ['upd', 0, addr_of(fb, names, W), touch(kind, 1)],
+                   ['remove', 0, V],
+                   ['upd', 0, addr_of(fb, names, W), touch(kind, 2)],
+                   ['remove', 0, W],
+                   ['upd', 0, addr_of(fa, names, V), touch(kind, 3)],
+                   ['labels', 0, addr_of(fb, names, W)],
+                   ['upd', 0, addr_of(fb, names, V), touch(kind, 4)]]
+            yield dict(fams=[fd], ops=ops)
+
+
+def addressing_alphabet(vals):
+    """for every value: update through positional labels(), update through keyword labels(), remove(); and clear()"""
+    ops = []
+    for v in vals:
+        ops.append(lambda i, v=v: ['upd', 0, ['pos', [v]], touch('counter', i)])
+        ops.append(lambda i, v=v: ['upd', 0, ['kw', [['l', v]]], touch('counter', i)])
+        ops.append(lambda i, v=v: ['remove', 0, [v]])
+    ops.append(lambda i: ['clear', 0])
+    return ops
+
+
+# triples for the exhaustive addressing slice: (non-str value, the string it shows as, the string it holds / a near miss)
+ADDRESSING_TRIPLES = [
+    [['t', 'x', 'tag:x'], ['s', 'tag:x'], ['s', 'x']],
+    [['e', 'Color', 'RED'], ['s', 'Color.RED'], ['s', 'red']],
+    [['e', 'Tag', 'A'], ['o', 'tag:a'], ['e', 'Color', 'A']],
+    [['i', 1], ['b', True], ['I', 2, '1']],
+    [['n'], ['t', '', 'None'], ['s', '']],
+    [['y', '61'], ['s', "b'a'"], ['T', 'a']],
+]
+
+
 def gen_history(rng, nfam=None, length=None):
     nfam = nfam or rng.choice([1, 1, 2, 2, 3, 4])
     fams = [gen_family(rng, i) for i in range(nfam)]
     length = length or rng.randrange(5, 61)
-    # a small per-history pool of label values, chosen to collide after str()
+    # a small per-history pool of label values, chosen to collide after str(): a window of the plain pool, or (mostly) a few
+    # members of one or two of the groups of objects that str() identifies / separates
     k = rng.randrange(2, 6)
-    start = rng.randrange(len(LV_POOL))
-    small = [LV_POOL[(start + j) % len(LV_POOL)] for j in range(k)]
+    if rng.random() < 0.3:
+        start = rng.randrange(len(LV_POOL))
+        small = [LV_POOL[(start + j) % len(LV_POOL)] for j in range(k)]
+    else:
+        g = list(rng.choice(LV_GROUPS))
+        if rng.random() < 0.25:
+            g = g + rng.choice(LV_GROUPS)
+        small = small_pool(rng, g, k + 1)
     ops = []
     for _ in range(length):
         f = rng.randrange(nfam)
@@ -758,10 +1076,10 @@ def gen_history(rng, nfam=None, length=None):
             if fd['labels'] and rng.random() < 0.85:
                 vals = gen_values(rng, fd, small)
                 if rng.random() < 0.1:
-                    vals = vals[:-1] if rng.random() < 0.5 else vals + [rng.choice(LV_POOL)]
+                    vals = vals[:-1] if rng.random() < 0.5 else vals + [rng.choice(LV_ALL)]
                 ops.append(['remove', f, vals])
             else:
-                ops.append(['remove', f, [] if rng.random() < 0.5 else [rng.choice(LV_POOL)]])
+                ops.append(['remove', f, [] if rng.random() < 0.5 else [rng.choice(LV_ALL)]])
         elif r < 0.11 and fd['labels']:
             ops.append(['clear', f])
         elif r < 0.17:
@@ -818,6 +1136,7 @@ MK_CASES = [[], [INF], [1.0], [2.0, 1.0], [1.0, 1.0], [1.0, 2.0, 1.5], [0.0, -0.
 
 def cases(ctx):
     rng = ctx.rng
+    lv_selfcheck()
     # construction: bucket validation, enum states
     for lay in MK_CASES:
         yield dict(mk=dict(kind='histogram', name='h', labels=[], buckets=[enc_amount(b) for b in lay], states=[]))
@@ -853,6 +1172,16 @@ def cases(ctx):
                     if kind == 'counter':
                         ops.insert(rng.randrange(len(ops)), ['upd', 0, addr, ['reset']])
                     yield dict(fams=[fd], ops=ops)
+    # addressing: exhaustive depth 3 over {positional update, keyword update, remove} x three values (+ clear) for triples
+    # (non-str value, the string it shows as, the string it holds), on a counter with one label
+    fd = addressing_family('counter', ['l'])
+    for triple in ADDRESSING_TRIPLES:
+        alpha = addressing_alphabet(triple)
+        for seq in itertools.product(range(len(alpha)), repeat=3):
+            yield dict(fams=[fd], ops=[alpha[j](i) for i, j in enumerate(seq)])
+    # addressing: pairs of values of every group through every form, all six types, one and two labels
+    for case in pair_histories(rng, ctx.n(70, 400)):
+        yield case
     # random histories
     for _ in range(ctx.n(2500, 60000)):
         yield gen_history(rng)
@@ -910,6 +1239,16 @@ def classify(case, obs):
             keys.append('addr:' + (op[2] if op[2] == 'P' else op[2][0]))
         if op[0] == 'upd' and len(op[3]) > 1 and op[3][0] in ('inc', 'dec', 'set', 'obs'):
             keys.append('amount:' + amount_class(op[3][1]))
+        vals = []
+        if op[0] == 'remove':
+            vals = [('remove', v) for v in op[2]]
+        elif op[0] in ('upd', 'labels') and op[2] != 'P':
+            if op[2][0] in ('pos', 'both'):
+                vals += [('pos', v) for v in op[2][1]]
+            if op[2][0] in ('kw', 'both'):
+                vals += [('kw', v) for _n, v in op[2][-1]]
+        for how, v in vals:
+            keys.append('labelvalue:%s:%s' % (how, lv_kind(v)))
     return keys
 
 
